@@ -85,7 +85,10 @@ def generate(repo, keys, contracts_dir=None, procs=None):
         return infos, obs
     procs = procs or min(16, os.cpu_count() or 4, len(jobs))
     ctx = mp.get_context("fork")
-    pool = ctx.Pool(procs)
+    # one fresh process per function: the z3 term ids (and with them the
+    # SMT-LIB text and the solver's heuristics) are then the same on every
+    # run, whatever the pool's scheduling was
+    pool = ctx.Pool(procs, maxtasksperchild=1)
     try:
         asyncs = [(j, pool.apply_async(_gen_one, (j,))) for j in jobs]
         deadline = time.time() + GEN_TIMEOUT_S
